@@ -346,6 +346,50 @@ func check(c *fw.Ctx, all []kase) error {
 		}
 	}
 	c.Extra["cases_by_tier_and_verdict"] = stat
+	// how many generated cases satisfy the antecedent of each model-level invariant TLC
+	// checked (TLC's own -coverage is unusable on the limb recursion: it runs out of memory)
+	ante := map[string]int{}
+	for i := range all {
+		k := &all[i]
+		rc := k.Res.C
+		if k.Res.St == "ok" {
+			num := rc.Class == "int" || rc.Class == "rune" || rc.Class == "float"
+			if num && rc.Num.Point == 0 {
+				ante["RepMonotone,RepIsTruncFixpoint (integral result)"]++
+			}
+			if num && rc.Typ != "untyped" {
+				ante["TypedFits (typed numeric result)"]++
+			}
+			if rc.Typ == "float32" || rc.Typ == "float64" {
+				ante["RoundIdem (typed float result)"]++
+			}
+		}
+		if k.Tier == "expr" && len(k.Toks) == 3 && k.Toks[0].K == "lit" && k.Toks[1].K == "lit" {
+			intLit := func(t tok) bool { return t.O == "i" || t.O == "p" || t.O == "pm1" || t.O == "pp1" || t.O == "r" }
+			if intLit(k.Toks[0]) && intLit(k.Toks[1]) {
+				switch k.Toks[2].O {
+				case "/":
+					ante["DivModIdentity (pairs of integer literals)"]++
+				case "&":
+					ante["BitIdentities"]++
+				case "<<":
+					ante["ShiftIdentities"]++
+				case "<":
+					ante["OrderIdentities"]++
+				}
+			}
+		}
+		if k.Tier == "block" {
+			ante["ImplicitIsTextual,BlankStillCounts,IotaRestarts (blocks)"]++
+			for _, s := range k.Specs {
+				if s.Impl {
+					ante["blocks with an implicit spec"]++
+					break
+				}
+			}
+		}
+	}
+	c.Extra["invariant_antecedent_counts"] = ante
 
 	// second observation for failing accepted cases whose own observation compares an
 	// untyped constant that its default type cannot hold exactly: the neutral program
@@ -377,8 +421,14 @@ func check(c *fw.Ctx, all []kase) error {
 		cands := []string{trig}
 		if k.Res.St != "reject" {
 			cands = k.acceptTriggers(neutralOK[f.i])
-		} else if has(k.tags(), "shift-typed-count") {
-			cands = append(cands, tShiftTyped)
+		} else {
+			// a rejected case may carry a second, independent reason
+			if has(k.tags(), "shift-typed-count") {
+				cands = append(cands, tShiftTyped)
+			}
+			if has(k.tags(), "also-divzero") {
+				cands = append(cands, tTyped)
+			}
 		}
 		for _, t := range cands {
 			if c.IsKnown(t, f.mode) {
